@@ -80,6 +80,36 @@ func checkC17(c *Ctx) (int, error) {
 		add(cs, i%2 == 0)
 		c.ev.nontrivial(fmt.Sprintf("stress%d-%d", i, len(cs.Insts)))
 	}
+	// hammer cases: the life of pooled objects under load - every instance constructs or resets its
+	// Reader/Writer thousands of times on a tiny stream while the others do the same (zlib instances
+	// with preset dictionaries of one length but different content, gzip, flate; all levels)
+	nHam, perHam := 4, 20000
+	if c.Tier == "thorough" {
+		nHam, perHam = 16, 100000
+	}
+	for i := 0; i < nHam; i++ {
+		cs := &CCase{ID: fmt.Sprintf("C17-hammer-%d", i), Arch: c.Levels[i%len(c.Levels)], Procs: []int{16, 4, 8, 2}[i%4], Hammer: perHam, Tag: "hammer"}
+		for k := 0; k < 8+4*(i%2); k++ {
+			kind := []string{"zlib", "zlib", "gzip", "flate", "zlib"}[(k+i)%5]
+			set := WSetting{Kind: kind, Level: []int{-1, 1, 6, -2, 2}[(k+2*i)%5], Window: 32768}
+			if kind == "zlib" && k%5 != 4 {
+				set.Dict = &DataSpec{Class: "text", Seed: int64(100 + k), Len: 64}
+			}
+			role := "reader"
+			if k%4 == 3 {
+				role = "writer"
+				if set.Level == 6 {
+					set.Level = 1 // (a delegated level allocates a megabyte per construction: too slow for this loop)
+				}
+			}
+			cs.Insts = append(cs.Insts, InstSpec{Role: role, Set: set, Data: DataSpec{Class: "text", Seed: int64(k), Len: 40 + 10*k}})
+		}
+		if i%2 == 1 {
+			cs.Hammer = perHam / 10 // under the race detector everything is ten times slower
+		}
+		add(cs, i%2 == 1)
+		c.ev.nontrivial(fmt.Sprintf("hammer%d", i))
+	}
 	// cold starts: the very first use of the library in a process is concurrent (lazily initialised
 	// shared state); each such case runs in a worker process of its own
 	var cold []*CCase
